@@ -309,3 +309,36 @@ func (ex *Exchange) Refused() bool {
 	}
 	return false
 }
+
+// TransitionFault checks what the state-change handler was told against the states the
+// datatype really went through: the first report starts at the state the entry mode begins
+// in, every report starts where the previous one ended, none reports a change to the same
+// state, and the last one ends at the state the datatype is in now. "" = consistent.
+func (d *DT) TransitionFault() string {
+	if d == nil || d.DT == nil {
+		return ""
+	}
+	d.mu.Lock()
+	trs := append([]Transition{}, d.Transitions...)
+	d.mu.Unlock()
+	cur := model.StateOfDatatype_DUE_TO_SUBSCRIBE_CREATE
+	switch d.Mode {
+	case Create:
+		cur = model.StateOfDatatype_DUE_TO_CREATE
+	case Subscribe:
+		cur = model.StateOfDatatype_DUE_TO_SUBSCRIBE
+	}
+	for i, t := range trs {
+		if t.Old != cur {
+			return fmt.Sprintf("report %d of %d says %v -> %v, but the datatype was in state %v before (reports so far: %v)", i+1, len(trs), t.Old, t.New, cur, trs)
+		}
+		if t.Old == t.New {
+			return fmt.Sprintf("report %d of %d says %v -> %v: no change", i+1, len(trs), t.Old, t.New)
+		}
+		cur = t.New
+	}
+	if now := d.DT.GetState(); now != cur {
+		return fmt.Sprintf("the state-change handler's reports end in %v (reports: %v), the datatype is in state %v", cur, trs, now)
+	}
+	return ""
+}
